@@ -525,7 +525,11 @@ def processLine (st : DState) (lineNo : Nat) (line : String) : DState × String 
     let same := w.mkt.listings.isEmpty && w.mkt.buckets.isEmpty &&
       sortNats w.mkt.listingUsed == sortNats m0.listingUsed && sortNats w.mkt.bucketUsed == sortNats m0.bucketUsed &&
       w.mkt.feeKind == m0.feeKind && w.mkt.feeSince == m0.feeSince && w.mkt.registry == m0.registry
-    (st, s!"A {lineNo} INST agree={if same then 1 else 0} O=-")
+    -- the registry is created without an admin (`WasmMsg::Instantiate { admin: None, .. }`): nobody can migrate it
+    let regAdminNone := match alookup w.regAddr w.contracts with
+      | some ci => ci.admin.isNone
+      | none => false
+    (st, s!"A {lineNo} INST agree={if same then 1 else 0} O={if regAdminNone then "-" else "oRegAdmin"}")
   | "REPLY" :: rest =>
     let p : P String := do
       let id ← nat
